@@ -48,11 +48,24 @@ def hashEnc (b : Batch) : Bytes :=
 /-- `Batch.Hash` -/
 def hashOf (b : Batch) : Bytes := sha256 (hashEnc b)
 
+/-- the hash input under the name the property uses: the byte string `Batch.Hash` feeds to SHA-256 (`hashEnc`).
+Injective on lists of byte strings shorter than 2^64 (`Spec.C10.batchHashInput_injective`): the datastore key of a
+batch separates any two different batches as far as SHA-256 does. -/
+abbrev hashInput : List Bytes → Bytes := hashEnc
+
+/-- NOT the code's layout: the same input without the per-transaction length fields (count ‖ tx₁ ‖ tx₂ …).  It is not
+injective (`Spec.C10.hashInputNoLen_not_injective`): batches that cut the same bytes at other places collide. -/
+def hashInputNoLen (b : List Bytes) : Bytes :=
+  if b.isEmpty then [] else be8 b.length ++ b.flatMap (fun tx => tx)
+
 /-- big-endian value of a byte string -/
 def beNat (bs : Bytes) : Nat := bs.foldl (fun acc x => acc * 256 + x.toNat) 0
 
 /-- the datastore key of a batch as a number (order of keys = order of these numbers) -/
 def realKey (b : Batch) : Nat := beNat (hashOf b)
+
+/-- the datastore key a queue would use if `Batch.Hash` left the length fields out (witnesses only) -/
+def noLenKey (b : Batch) : Nat := beNat (sha256 (hashInputNoLen b))
 
 /-- the datastore key string `/batches/<hex(sha256 …)>` (printed by the driver, compared with the
 real datastore's key on every run) -/
